@@ -615,6 +615,10 @@ class Interp:
                 self.out.events.append(("store", r.name, v))
             return v
         self.out.events.append(("store-other", canon))
+        for ev_name, rx in self.role_calls.items():
+            if rx.pattern.startswith("@store:") and re.fullmatch(rx.pattern[7:], canon):
+                self.out.calls.append((ev_name, (v,)))
+                break
         return v
 
     def _call(self, e: C.Call, env: "Env"):
@@ -932,8 +936,8 @@ def _expected_value(x, ranks: Dict[str, int], interp: Interp):
         return (SYM, x)
     if isinstance(x, tuple) and x and x[0] == "any":
         return ("any",)
-    if x is ANY:
-        return ("any",)
+    if isinstance(x, tuple) and len(x) == 3 and x[0] == "tuple":
+        return ("tuple", x[1], tuple(_expected_value(y, ranks, interp) for y in x[2]))
     return x
 
 
